@@ -14,8 +14,9 @@ EXPLANATION = (
     "under &mut World; (OUTCOME) try_fetch/try_fetch_mut return None only from the None arm of the lookup and turn a refused borrow "
     "into a panic, the by-id forms map the cell through the panicking borrow, fetch/fetch_mut turn absence into a panic; (SIBLING) "
     "shared and exclusive variants have equal skeletons modulo borrow<->borrow_mut; (CLONE) Fetch::clone goes through AtomicRef::clone; "
-    "(UNSAFE) the crate's unsafe impls and unsafe fns are exactly the audited ones; (RELEASE) guards own their borrow, have no Drop impl "
-    "and are never leaked. Multi-threaded histories (the cell's atomics) are not decided.")
+    "(UNSAFE) the crate's unsafe impls and unsafe fns are exactly the audited ones; (RELEASE) guards own their borrow, have no Drop impl, "
+    "are never leaked, and no reference derived from a guard is re-made through a raw pointer, a transmutation or a helper with a free result lifetime "
+    "(the only ways a reference to guarded data could outlive the borrow it stands for). Multi-threaded histories (the cell's atomics) are not decided.")
 ASSUMPTIONS = ["atomic_refcell implements shared-xor-exclusive with panicking / failing borrows and releases in Drop"]
 TRUSTED = ["rustc nightly MIR construction", "shred-facts driver", "shredlint analyses"]
 TECHNIQUE = 'static: who-may-touch analysis of World.resources and of looked-up cells, AtomicRefCell API inventory, decision tables of the try_fetch family, shared / exclusive siblings compared on their canonical tabulations, the unsafe escape hatch decided in each function that uses it (helpers in their callers), unsafe item inventory, guard ownership / leak inventory, compile_fail witnesses'
@@ -32,4 +33,4 @@ def run(ctx, report):
         report.guard("C08.UNSAFE", W.unsafe_inventory, ctx, report, "C08.UNSAFE", facts, config)
         report.guard("C08.RELEASE", R.release, ctx, report, "C08.RELEASE", facts, config)
     P.check(ctx, report, "C08.GATE", ["cell_as_ptr"])
-    P.check(ctx, report, "C08.RELEASE", ["forget_guard", "manually_drop_guard", "leak_guard"])
+    P.check(ctx, report, "C08.RELEASE", ["forget_guard", "manually_drop_guard", "leak_guard", "launder_guard"])
